@@ -142,7 +142,7 @@ impl Store {
 // @item rust/core/src/search/mod.rs :: impl Store::{top_ixs} (lifted)
 pub fn cmp_records(r1: &&Record, r2: &&Record) -> (ret: Ordering)
     // C12: the comparator of the empty-query ranking is (rating descending, normalised title ascending)
-    ensures ret == rec_order(*r1, *r2), // [C12 C07]
+    ensures ret == rec_order(*r1, *r2), // [C12]
 {
     {
         r2.rating.cmp(&r1.rating).then_with(|| -> (ret: Ordering)
